@@ -58,6 +58,11 @@ impl<'a> IndexCtx<'a> {
         if let Some(defset_id) = self.symbol_map.find_defset(name) {
             return Some(defset_id.into());
         }
+        // a multiclass may define a record that is called like the defm itself (`def "" : …`,
+        // `def NAME : …`): the name of a defm is a value too, the records are not instantiated here
+        if let Some(defm_id) = self.symbol_map.find_defm(name) {
+            return Some(defm_id.into());
+        }
         None
     }
 
